@@ -20,6 +20,12 @@ def g_alphabet(dom, two_defs):
            "LF:%s:%s" % (enc_rule(["alice"]), enc_rule(["alice"])), A("g", "g", ["carl", "carl"] + (["d1"] if dom else [])),
            R("g", "g", ["carl", "carl"] + (["d1"] if dom else [])), R("g", "g", ["nobody", "nothing"] + (["d1"] if dom else [])),
            A("p", "p", p_rules(dom)[0])]
+    if dom:
+        # the SAME (user, role) pairs in a second domain: a link in d1 must come and go with ITS rule only
+        for r in gr[:2]:
+            r2 = r[:2] + ["d2"]
+            al += [A("g", "g", r2), R("g", "g", r2)]
+        al += [RF("g", "g", 2, ["d2"]), "drs:alice:d2", "dr:alice:admin:d2"]
     if two_defs:
         al += [A("g", "g2", ["data1", "res"]), R("g", "g2", ["data1", "res"]), A("g", "g2", ["data2", "res"]), RF("g", "g2", 1, ["res"])]
     return al
